@@ -111,6 +111,11 @@ class _Env:
     key = (M, impl, float(radius))
     if key not in self._grids:
       cls = self.sh.RealSphericalHarmonics if impl == 'real' else self.sh.FastSphericalHarmonics
+      if impl == 'fast-padded':
+        # a padded modal / nodal layout (what model-parallel runs use): zero-padded tables are where a derivative rule
+        # can go non-finite (0 * inf) although every primal value is right
+        import functools
+        cls = functools.partial(self.sh.FastSphericalHarmonics, base_shape_multiple=4)
       self._grids[key] = self.sh.Grid.with_wavenumbers(M, spherical_harmonics_impl=cls, radius=radius)
     return self._grids[key]
 
@@ -614,6 +619,25 @@ def _probes_ops(ctx, E, grid, gname, n):
       rhs = float(np.vdot(np.asarray(x), az))
       ctx.expect(abs(lhs - rhs) <= 1e-12 * (abs(lhs) + abs(rhs)) + 1e-300, 'to_nodal:analysis-is-adjoint',
                  f'sum w (S x) z = {lhs!r} but sum x (A z) = {rhs!r}', gi)
+  # padded layout: every spectral operator whose static table is padded, plus a shallow-water tendency and step
+  gp = E.grid([5, 6, 7][ctx.seed % 3] if ctx.quick else int(rng.choice([5, 6, 7, 9])), 'fast-padded')
+  gpi = dict(ginfo, grid='fast-padded', modal_shape=list(gp.modal_shape), nodal_shape=list(gp.nodal_shape),
+             modal_padding=list(gp.modal_padding))
+  ctx.dist[f'padded-grid:modal_padding={tuple(gp.modal_padding)}'] += 1
+  xp_, vp_ = J(_rm(rng, gp, 2, 1.0)), J(_rm(rng, gp, 2, 1.0))
+  for opn, opf in (('inverse_laplacian', gp.inverse_laplacian), ('laplacian', gp.laplacian),
+                   ('clip_wavenumbers', gp.clip_wavenumbers), ('to_nodal', gp.to_nodal), ('d_dlon', gp.d_dlon),
+                   ('cos_lat_d_dlat', gp.cos_lat_d_dlat), ('sec_lat_d_dlat_cos2', gp.sec_lat_d_dlat_cos2),
+                   ('cos_lat_grad', lambda a: gp.cos_lat_grad(a)), ('to_nodal_of_wind', lambda a: tuple(
+                       gp.to_nodal(c) for c in E.sh.get_cos_lat_vector(a, 0.5 * a, gp)))):
+    _deriv_probe(ctx, E, f'{opn}:padded-layout', opf, xp_, vp_, gpi)
+  zp_, dzp_ = J(rng.standard_normal((2,) + gp.nodal_shape)), J(rng.standard_normal((2,) + gp.nodal_shape))
+  _deriv_probe(ctx, E, 'to_modal:padded-layout', gp.to_modal, zp_, dzp_, gpi)
+  eqp, _, _, _, mkp, infop = _sw_setup(ctx, E, gp, 2)
+  infop = dict(gpi, **infop)
+  _deriv_probe(ctx, E, 'explicit_terms:shallow-water:padded-layout', eqp.explicit_terms, mkp(), mkp(base=False), infop)
+  stepp = E.ti.imex_rk_sil3(eqp, 0.005)
+  _deriv_probe(ctx, E, 'step:shallow-water:sil3:padded-layout', stepp, mkp(), mkp(base=False), infop)
   # equation classes: explicit / implicit terms, implicit inverse
   classes = ['dry', 'moist', 'cloud', 'time'] if not ctx.quick else [['dry', 'moist'], ['moist', 'time'], ['cloud', 'dry']][ctx.seed % 3]
   for cls in classes:
